@@ -53,6 +53,9 @@ def configs(tier, seed):
         [(2, 1), (2, 2), (3, 2), (3, 3), (4, 1), (4, 2), (4, 3), (4, 4), (5, 2), (5, 3), (5, 5), (6, 3), (6, 4), (7, 2), (7, 3), (7, 7), (8, 3), (9, 4)]
     # kaldi_shift is documented to matter for centered frames only: causal + kaldi_shift at two grid points
     extra = [((L, S), ('causal', True)) for (L, S) in ((5, 2), (7, 3))]
+    # frame shifts beyond the frame length (C02 speaks about every configuration): frames no longer overlap, with
+    # kaldi_shift the first frame starts inside the signal
+    extra += [((L, S), sk) for (L, S) in ((2, 6), (3, 7), (3, 4)) for sk in (('causal', False), ('centered', False), ('centered', True))]
     for (L, S), (style, kaldi) in list(itertools.product(grid, [('causal', False), ('centered', False), ('centered', True)])) + extra:
         cfgs.append(dict(kind='cover', name='cover L%d S%d %s%s' % (L, S, style, '+kaldi' if kaldi else ''), L=L, S=S,
                          style=style, kaldi=kaldi, NMAX=(3 if tier == 'quick' else 4) * L))
